@@ -341,6 +341,8 @@ def _mk():
                 return True
             if not v.open_attrs or v.term is None:
                 return False
+        if isinstance(v, (ExtV, FuncV, ClassV)) and name in ("__module__", "__name__", "__qualname__", "__doc__"):
+            return True  # every function / class object has these
         return T("hasattr", (A._term(v), A._term(name)))
 
     def b_setattr(it, a, k, n):
@@ -536,6 +538,8 @@ def _mk():
         v = a[0]
         if v is None:
             return ExtV("builtins.NoneType")
+        if isinstance(v, Obj) and isinstance(v.attrs.get("__class__"), Obj):
+            return v.attrs["__class__"]  # a scenario object that models its class explicitly
         if isinstance(v, Obj):
             return v.cls if v.cls is not None else ExtV(v.cls_name)
         if isinstance(v, TV) and v.kind == "tensor":
